@@ -1,0 +1,11 @@
+//go:build verif
+
+package sqroot
+
+// Hooks for the verification machinery in /verif. Compiled only with
+// -tags verif; the shipped package is unaffected.
+
+// VerifBufferSize exports the unexported bufferSize option.
+func VerifBufferSize(size int) Option {
+	return bufferSize(size)
+}
